@@ -79,6 +79,8 @@ def convert(rec, gindex, keep_lex=False):
             evs.append(['tval', e[1], e[2], e[3], e[4]])
         elif e[0] == 'call':
             evs.append(['call', e[1], e[2], e[3], e[4], e[5]])
+        elif e[0] == 'dcall':
+            evs.append(['dcall', e[1], e[2], e[3], e[4]])
         else:
             evs.append(list(e))
     flat = []
